@@ -145,9 +145,9 @@ def run(tier):
     wd = workdir('c06')
     sd = seed()
     cbuild.build()
-    nprogs, steps = (30, 120) if tier == 'quick' else (60, 250)
+    nprogs, steps = (22, 100) if tier == 'quick' else (60, 250)
     args = [(sd * 977 + k, nprogs, steps) for k in range(16)]
-    n128, steps128 = (10, 100) if tier == 'quick' else (24, 200)
+    n128, steps128 = (8, 80) if tier == 'quick' else (24, 200)
     args128 = [(sd * 1201 + 5 + k, n128, steps128) for k in range(16)]
     with mp.get_context('fork').Pool(16) as pool:
         parts128 = pool.map_async(progdrv.lockstep128, args128)
